@@ -18,10 +18,11 @@ REPO = os.environ.get('PB_BSS_REPO', '/repo')
 
 class Case:
     def __init__(self, name, fn, kw=None, bounds='', timeout_ms=20000, max_paths=2000, cosim=2, budget_s=600,
-                 expect_exception=None, pin_tries=2):
+                 expect_exception=None, pin_tries=2, lazy=False):
         self.name, self.fn, self.kw = name, fn, dict(kw or {})
         self.bounds, self.timeout_ms, self.max_paths, self.cosim, self.budget_s = bounds, timeout_ms, max_paths, cosim, budget_s
         self.pin_tries = pin_tries
+        self.lazy = lazy
 
 
 def _setup_path():
@@ -60,6 +61,7 @@ def run_sym(prop, tier, case_name, seed):
     from symnp.env import Env, OutsidePre
     stubs.install_all()
     CTX.pre.clear()
+    CTX.lazy = case.lazy
     CTX.stats.update(queries=0, solver_s=0.0, guards=0, forks=0, unknown=0)
     stubs.STUB_CALLS.clear()
     env = Env('sym', seed=seed, timeout_ms=case.timeout_ms, pin_tries=case.pin_tries)
@@ -85,6 +87,11 @@ def run_sym(prop, tier, case_name, seed):
                 break
     except core.Unsupported as e:
         res['error'] = 'unsupported: %s' % (e,)
+    except BaseException as e:
+        if type(e).__name__ == 'StopCase':
+            res['notes'] = ['exploration stopped early: %s raised on 4 paths' % (e,)]
+        else:
+            raise
     except Exception:
         res['error'] = traceback.format_exc(limit=12)
     finally:
@@ -95,7 +102,7 @@ def run_sym(prop, tier, case_name, seed):
     res['stats'] = dict(CTX.stats)
     res['stubs'] = dict(stubs.STUB_CALLS)
     res['functions'] = sorted(_PROFILE)
-    res['notes'] = list(CTX.notes)
+    res['notes'] = list(res.get('notes') or []) + list(CTX.notes)
     res['wall_s'] = time.time() - t0
     return res
 
@@ -114,15 +121,28 @@ def _guard(body, env):
             raise
         except Exception as e:
             tb = traceback.format_exc(limit=6)
-            if _from_engine(e):
+            if _from_engine(e) or not _in_repo(e):
                 raise core.Unsupported('engine error: %r\n%s' % (e, tb))
             label = 'no_exception:%s' % type(e).__name__
             r, vals = env.path_model()
             env.obls.append(Obl(label, 'sat' if r == 'sat' else r, 0.0, True, env.path_no, detail=tb[-600:]))
             if r == 'sat':
                 env.candidates.append(dict(label=label, values=vals, kind='exception', path=env.path_no))
+            env.bad_labels[label] = env.bad_labels.get(label, 0) + 1
+            if env.bad_labels[label] >= 4:
+                from symnp.env import StopCase
+                raise StopCase(label)
             return None
     return f
+
+
+def _in_repo(e):
+    tb = e.__traceback__
+    while tb is not None:
+        if tb.tb_frame.f_code.co_filename.startswith(REPO + '/'):
+            return True
+        tb = tb.tb_next
+    return False
 
 
 def _from_engine(e):
@@ -148,6 +168,8 @@ def run_conc(prop, tier, case_name, seed, values):
     mod = _load(prop)
     case = {c.name: c for c in mod.cases(tier)}[case_name]
     from symnp.env import Env, OutsidePre
+    from symnp import stubs
+    stubs.uninstall_all()
     env = Env('conc', values=values, seed=seed)
     out = dict(case=case_name, failed=[], outside=False, error=None, checked=0)
     try:
@@ -157,7 +179,12 @@ def run_conc(prop, tier, case_name, seed, values):
         out['outside'] = True
         out['note'] = str(e)
     except Exception as e:
-        out['failed'].append(('no_exception:%s' % type(e).__name__, traceback.format_exc(limit=5)[-500:]))
+        if _in_repo(e):
+            out['failed'].append(('no_exception:%s' % type(e).__name__, traceback.format_exc(limit=8)[-700:]))
+        else:
+            out['error'] = 'harness exception in concrete mode: ' + traceback.format_exc(limit=8)[-900:]
+    except BaseException as e:
+        out['error'] = 'engine exception in concrete mode: %r' % (e,)
     out['failed'] += [list(x) for x in env.failed]
     out['checked'] = env.checked_labels
     out['inputs'] = {k: _enc(v) for k, v in env.conc_inputs.items()}
@@ -276,6 +303,7 @@ def report(prop, tier, seed, cases, results, replays, t_start, verbose):
         else:
             spurious.append((key, 'outside precondition' if rr['outside'] else (rr.get('error') or 'did not reproduce')))
     n_obl = n_dis = n_nontriv = 0
+    skipped = set()
     solver_s = 0.0
     queries = 0
     funcs, stubs_used, assumptions, samples = set(), {}, [], []
@@ -289,6 +317,8 @@ def report(prop, tier, seed, cases, results, replays, t_start, verbose):
             n_obl += 1
             if o['verdict'] == 'unsat':
                 n_dis += 1
+            elif o['verdict'] == 'skipped':
+                skipped.add('%s:%s' % (c.name, _base(o['label'])))
             elif o['verdict'] != 'sat':
                 inconclusive.append('%s:%s' % (c.name, o['label']))
             if o['nontrivial']:
@@ -349,9 +379,17 @@ def report(prop, tier, seed, cases, results, replays, t_start, verbose):
     )
     os.makedirs(os.path.join(VERIF, 'evidence'), exist_ok=True)
     json.dump(ev, open(os.path.join(VERIF, 'evidence', prop + '.json'), 'w'), indent=1, default=str)
+    kseen = set()
     for key, path, failed, hit in known_hits:
+        if hit.get('what', key) in kseen:
+            continue
+        kseen.add(hit.get('what', key))
         print('KNOWN-FINDING: property=%s %s (%s)' % (prop, hit.get('what', key), key))
+    seen_keys = set()
     for key, path, failed, _ in violations:
+        if key in seen_keys:
+            continue
+        seen_keys.add(key)
         print('VIOLATION property=%s replay=%s  # %s: %s' % (prop, path, key, str(failed)[:300]))
     print('%s %s: cases=%d paths=%d obligations=%d discharged=%d nontrivial=%d solver=%.1fs wall=%.1fs cosim=%d/%d-bad violations=%d known=%d inconclusive=%d errors=%d'
           % (prop, tier, len(cases), paths, n_obl, n_dis, n_nontriv, solver_s, wall, cos_runs, len(cosim_bad),
